@@ -7,6 +7,8 @@ package goja
 func (vm *vm) vt(ev, a string)                          {}
 func (vm *vm) vtTryPush(catchPos, finallyPos int32)     {}
 func (vm *vm) vtAsync(ev string)                        {}
+func (vm *vm) vtInstr()                                 {}
+func (vm *vm) vtLate() string                           { return "" }
 func (vm *vm) vtSeg(ev string, ts, is, rs, st int)      {}
 func (r *Runtime) vtJob(ev string, id uint64, a string) {}
 
